@@ -85,8 +85,6 @@ def run(ctx):
     for i, (extra, path) in enumerate(paths):
         ops = [(s["act"], s["args"]) for s in path if s["act"] != "end"]
         jobs.append((i + 1, extra["cfg"], ops, {}))
-    traces = framework.pool_map(_job, jobs)
-    ctx.validate(FAM, "Trace_Gzip", "Trace_Gzip.cfg", traces, label="s2c", sig_fn=sig_of)
     ctx.cov["exhaustive"] = True
     n = ctx.pick(1200, 15000)
     base = len(jobs)
@@ -95,11 +93,11 @@ def run(ctx):
         rng = random.Random(ctx.seed * 1000003 + i)
         cfg, ops, kw = random_case(rng)
         rjobs.append((base + i + 1, cfg, ops, kw))
-    rtraces = framework.pool_map(_job, rjobs)
-    ctx.validate(FAM, "Trace_Gzip", "Trace_Gzip.cfg", rtraces, label="c2s", sig_fn=sig_of)
+    traces = framework.pool_map(_job, jobs + rjobs)
+    ctx.validate(FAM, "Trace_Gzip", "Trace_Gzip.cfg", traces, label="s2c+c2s", sig_fn=drv.with_kind(sig_of, base + 1))
     nhead = drv.head_vs_get(ctx, sig_of)
     ctx.note("head_vs_get_traces", nhead)
-    enc = sum(1 for t in traces + rtraces if t["ev"][-1]["obs"]["gz"]["used"])
+    enc = sum(1 for t in traces if t["ev"][-1]["obs"]["gz"]["used"])
     ctx.note("responses_gzip_encoded", enc)
     if enc == 0:
         raise framework.Machinery("vacuity: no recorded response was gzip encoded")
